@@ -35,14 +35,15 @@ type ProofStatus struct {
 }
 
 type Ctx struct {
-	P        *Prop
-	Tier     string
-	Seed     int64
-	Rng      *rand.Rand
-	Scale    float64
-	VerifDir string
-	drv      *Driver
-	drvPath  string
+	P           *Prop
+	Tier        string
+	Seed        int64
+	Rng         *rand.Rand
+	Scale       float64
+	VerifDir    string
+	drv         *Driver
+	drvPath     string
+	drvRestarts int
 
 	evaluations int
 	distinct    map[uint64]struct{}
@@ -278,6 +279,19 @@ func (c *Ctx) Model(op string, args any) any {
 		c.modelCalls++
 	}
 	out, err := c.drv.Call(c.P.ID, op, args)
+	if err != nil && c.drvRestarts < 3 {
+		// the driver process went away (e.g. killed under memory pressure by something unrelated):
+		// the model is a pure function of the request, so restarting and repeating the call is sound
+		c.drvRestarts++
+		c.drv.Close()
+		c.Note("model driver restarted after: %v", err)
+		d, err2 := startDriver(c.drvPath)
+		if err2 != nil {
+			panic(driverDead{err2})
+		}
+		c.drv = d
+		out, err = c.drv.Call(c.P.ID, op, args)
+	}
 	if err != nil {
 		panic(driverDead{err})
 	}
